@@ -8,6 +8,7 @@
       acks |-> << seq ... >>]                           STATQ datagrams seen for it
      [k |-> "silent", pos, v]                            unreported change of the spa block
      [k |-> "refresh", off, data |-> <<bytes>>]         an install performed by a get()
+     [k |-> "got", off, len, ok]                         a refresh call returned (ok = it reported success)
      [k |-> "final", block |-> <<bytes>>]               client block at the end
    Installs are observed by wrapping the structure object's replace_status_block_segment
    from the harness (exact linearisation point of every block mutation).             *)
@@ -45,12 +46,17 @@ TRefresh == /\ More /\ E.k = "refresh"
             /\ ref' = [p \in Pos |-> IF p >= E.off /\ p < E.off + Len(E.data) THEN spa[p] ELSE ref[p]]
             /\ steps' = steps + 1
             /\ UNCHANGED <<spa, changes, pseq, lastAck, acks, msgs>> /\ Step
+\* a refresh that reported success has made the client's range equal to the spa's (steps are taken
+\* only while nothing else is in flight, so the spa did not change underneath it)
+TGot == /\ More /\ E.k = "got"
+        /\ E.ok => \A p \in Pos : (p >= E.off /\ p < E.off + E.len) => cli[p] = spa[p]
+        /\ UNCHANGED vars /\ Step
 TFinal == /\ More /\ E.k = "final"
           /\ Len(E.block) = NB
           /\ \A p \in Pos : E.block[p + 1] = cli[p]
           /\ UNCHANGED vars /\ Step
 
-TNext == TMsg \/ TSilent \/ TRefresh \/ TFinal
+TNext == TMsg \/ TSilent \/ TRefresh \/ TGot \/ TFinal
 TSpec == TInit /\ [][TNext]_tvars
 
 Track == /\ TKTrack(tid, l, l > Len(Ev))
